@@ -1,7 +1,7 @@
 #!/bin/bash
 # offline build of the whole framework: translators -> Gen, full .vo build, extraction, model runner
 set -e
-cd "$(dirname "$0")"; mkdir -p extract/ml extract/bin replays evidence
+cd "$(dirname "$0")"; mkdir -p extract/ml extract/bin replays evidence coq/Gen
 export PYTHONPATH="${NV_REPO:-/repo}/src:$PWD/harness:$PWD/translate" PYTHONHASHSEED=0 PYTHONDONTWRITEBYTECODE=1
 /venv/bin/python - <<'PY'
 import common, kernels, sys
@@ -11,12 +11,15 @@ with common.BuildLock():
     common.ensure_makefile()
     rc, out = common.sh(['make', '-j16', '-k'], cwd=common.COQ, timeout=3000)
     print(out[-3000:])
-    import glob, os
+    import glob, os, json
+    integrated = set(json.load(open(os.path.join(common.VERIF, 'manifest.d', 'integrated.json'))))
     bad = 0
     for f in sorted(glob.glob(os.path.join(common.VERIF, 'extract', '*_run.ml'))):
         name = os.path.basename(f)[:-7]
         ok, log = common.build_extraction(name)
         print('extraction', name, ok, log[-500:] if not ok else '')
-        bad += (not ok)
+        # only the runners of integrated (claimed) checks are required; others may be under construction
+        needed = name.upper() in integrated or name.startswith('tags_')
+        bad += (not ok) and needed
     sys.exit(1 if bad else 0)
 PY
